@@ -83,7 +83,7 @@ func Match(seq Sequence, query Sequence) []Segment {
 		case 'n':
 			b.WriteString(".")
 		default:
-			b.WriteByte(c)
+			b.WriteString(regexp.QuoteMeta(string(c)))
 		}
 	}
 
